@@ -96,6 +96,7 @@ structure PSpec where
   minItems : Option Nat := none
   maxItems : Option Nat := none
   unique : Bool := false
+  allowEmpty : Bool := false  -- allowEmptyValue (query / formData): an empty value passes even when the parameter is required
   deriving DecidableEq, Repr
 
 inductive Val where
@@ -168,7 +169,7 @@ def arrayCore (p : PSpec) (items : List Str) : Bound :=
   | some vs => if validMany p vs then .many vs else .reject
 
 /-- what an empty value means: missing for a required parameter, "keep the default" for an optional one -/
-def emptyCase (p : PSpec) : Bound := if p.required then .reject else .absent
+def emptyCase (p : PSpec) : Bound := if p.required && !p.allowEmpty then .reject else .absent
 
 def lastOf (raw : Option (List Str)) : Str := match raw with | some vs => vs.getLast?.getD [] | none => []
 
@@ -189,7 +190,7 @@ def bindRef (p : PSpec) (raw : Option (List Str)) : Bound :=
   | none => if p.required then .reject else .absent
   | some vs =>
     let last := vs.getLast?.getD []
-    if last = [] then (if p.required then .reject else .absent) else
+    if last = [] then (if p.required && !p.allowEmpty then .reject else .absent) else
     if p.isArray then
       let items := splitOn (sepOf p.cf) last
       match items.mapM (convertRef p.ty) with
@@ -209,7 +210,7 @@ def bindGenMulti (p : PSpec) (raw : Option (List Str)) : Bound :=
 
 def bindRefMulti (p : PSpec) (raw : Option (List Str)) : Bound :=
   match raw with
-  | none => emptyCase p
+  | none => if p.required then .reject else .absent
   | some vs =>
     if vs.isEmpty then emptyCase p else
     match vs.mapM (convertRef p.ty) with
